@@ -19,6 +19,17 @@ impl OsString {
         self
     }
 }
+// (as on Windows: text converts into an OsString unit for unit)
+impl From<String> for OsString {
+    fn from(s: String) -> OsString {
+        OsString(s.encode_utf16().collect())
+    }
+}
+impl From<&str> for OsString {
+    fn from(s: &str) -> OsString {
+        OsString(s.encode_utf16().collect())
+    }
+}
 impl Deref for OsString {
     type Target = OsStr;
     fn deref(&self) -> &OsStr {
